@@ -7,6 +7,8 @@ Driver operation `iterfit` (properties C07 and C09): run the model of `iter_line
 iterfit <F|Q> <fitgeom> <nclip|none> <sigma|none> <sigstat> <accum 0|1> <eps> <center: -|cx,cy>
         <wmode n|x|u|b> <N> <x y u v>*N [<wxy>*N] [<wuv>*N]
 ```
+`<eps>` is the pivot threshold of `inv`; the threshold of the collinearity guard of `fit_general`
+is fixed to `numpy.finfo(numpy.double).eps = 2^-52` (`epsDStr`).
 `F`: IEEE doubles, the code's metric (Euclidean norms, `rmse`/`mae`/`std`).
 `Q`: exact rationals, root-free metric (`shift`/`general`, statistic `rmse` only); the `rmse`
 slot of the answer then holds the mean square and `mae`, `std` are `-`.
@@ -81,13 +83,13 @@ def opIterF (args : List String) : String :=
     | none, some _, some _, some _, some _, some _, some _ => "err badArg"   -- unsupported fitgeom
     | some g, some nclip, some sigma, some eps, some center, some n, some nums =>
       if accums ≠ "0" ∧ accums ≠ "1" then "bad-op" else
-      match parseData wmode n nums with
-      | none => "bad-op"
-      | some (obs, wxy, wuv) =>
-        match iterLinearFit eps g obs wxy wuv center nclip (sigma.map fun s => (s, sigstat))
+      match parseData wmode n nums, (Sc.parse epsDStr : Option Float) with
+      | some (obs, wxy, wuv), some epsD =>
+        match iterLinearFit eps epsD g obs wxy wuv center nclip (sigma.map fun s => (s, sigstat))
                 (accums == "1") with
         | .ok r => fmtRes r true
         | .error e => "err " ++ errName e
+      | _, _ => "bad-op"
     | _, _, _, _, _, _, _ => "bad-op"
   | _ => "bad-op"
 
@@ -102,12 +104,12 @@ def opIterQ (args : List String) : String :=
       if accums ≠ "0" ∧ accums ≠ "1" then "bad-op" else
       if sigstat ≠ "rmse" ∧ sigma.isSome then "bad-op" else      -- root-free metric: rmse only
       if g ≠ .shift ∧ g ≠ .general then "bad-op" else
-      match parseData wmode n nums with
-      | none => "bad-op"
-      | some (obs, wxy, wuv) =>
-        match iterLinearFitSq eps g obs wxy wuv center nclip sigma (accums == "1") with
+      match parseData wmode n nums, (Sc.parse epsDStr : Option Rat) with
+      | some (obs, wxy, wuv), some epsD =>
+        match iterLinearFitSq eps epsD g obs wxy wuv center nclip sigma (accums == "1") with
         | .ok r => fmtRes r false
         | .error e => "err " ++ errName e
+      | _, _ => "bad-op"
     | _, _, _, _, _, _, _ => "bad-op"
   | _ => "bad-op"
 
